@@ -30,6 +30,10 @@ type C13Ctx struct {
 	// without changing its length (one byte in the middle) - what sits at the
 	// output path is part of the environment that must not matter
 	AlterPrior bool `json:"alter_prior,omitempty"`
+	// StalePrior: leave the previous run's output in place with its import block
+	// naming the package's former location (a valid older result; only in worlds
+	// that have a second package of the same name)
+	StalePrior bool `json:"stale_prior,omitempty"`
 }
 
 type C13Case struct {
@@ -155,9 +159,13 @@ func genC13(cfg Config, ws *WorldSet, i, nctx int) C13Case {
 		if j > 0 && r.Chance(1, 3) {
 			x.KeepPrior = true
 			x.Dims["prior-output"] = "kept"
-			if r.Chance(1, 2) {
+			switch r.Intn(3) {
+			case 0:
 				x.AlterPrior = true
 				x.Dims["prior-output"] = "kept, one byte altered (same length)"
+			case 1:
+				x.StalePrior = true
+				x.Dims["prior-output"] = "kept, imports as of the package's former location"
 			}
 		}
 		c.Ctxs = append(c.Ctxs, x)
@@ -263,6 +271,13 @@ func execC13(env *sim.Env, c C13Case) CaseResult {
 						nb[k] = 'x'
 					}
 					pre = append(pre, Step{Op: "write", Path: x.Inv.OutPath, Data: nb})
+				}
+			}
+			if x.KeepPrior && x.StalePrior {
+				if old, ok := sim.ReadMaybe(w(root, x.Inv.OutPath)); ok {
+					if alt := staleImports(c.World, old); alt != nil {
+						pre = append(pre, Step{Op: "write", Path: x.Inv.OutPath, Data: alt})
+					}
 				}
 			}
 			pre = append(pre, Step{Op: "mkdir", Path: "{W}/tmp/alt"})
@@ -427,8 +442,11 @@ func shrinkC13(c C13Case) []C13Case {
 	if b.AlterPrior {
 		try(func(x *C13Ctx) { x.AlterPrior = false; x.Dims["prior-output"] = "kept" })
 	}
+	if b.StalePrior {
+		try(func(x *C13Ctx) { x.StalePrior = false; x.Dims["prior-output"] = "kept" })
+	}
 	if b.KeepPrior {
-		try(func(x *C13Ctx) { x.KeepPrior, x.AlterPrior = false, false; delete(x.Dims, "prior-output") })
+		try(func(x *C13Ctx) { x.KeepPrior, x.AlterPrior, x.StalePrior = false, false, false; delete(x.Dims, "prior-output") })
 	}
 	if fmt.Sprint(b.Env) != fmt.Sprint(a.Env) {
 		try(func(x *C13Ctx) {
